@@ -21,9 +21,12 @@
 //! `unnest_columns` and SQL `unnest()` deliberately differ on NULL lists (preserve_nulls true vs false): lists are only
 //! built with `make_array(e1, e2[, e3])`, which is never NULL.
 //!
-//! Known findings (genuine, outcome-keyed signatures): `offset-only-limit-under-sort` — EnsureRequirements pushes a SortExec below
-//! GlobalLimitExec(skip=n, fetch=None) (plain SQL repro: SELECT id FROM (SELECT * FROM t0 ORDER BY id DESC OFFSET 1) ORDER BY id
-//! ASC returns 1,2 for ids 0,1,2); `window-builder-default-frame` — `ExprFunctionExt::order_by(..).build()` without a frame
+//! Known findings (genuine, outcome-keyed signatures): `offset-only-limit-under-sort` — EnsureRequirements does not treat
+//! GlobalLimitExec(skip=n, fetch=None) as order-sensitive: it pushes a later SortExec below it (plain SQL repro: SELECT id FROM
+//! (SELECT * FROM t0 ORDER BY id DESC OFFSET 1) ORDER BY id ASC returns 1,2 for ids 0,1,2) or removes the SortExec feeding it
+//! when a projection sits in between (SELECT p FROM ((SELECT * FROM (SELECT * FROM t0 ORDER BY id DESC OFFSET 1) AS x) UNION ALL
+//! (SELECT * FROM (SELECT * FROM t0 ORDER BY id DESC OFFSET 1) AS y)) skips the wrong row); the two sides' plans have different
+//! shapes, so they go wrong differently. The proposed patch repairs the push-down path only. `window-builder-default-frame` — `ExprFunctionExt::order_by(..).build()` without a frame
 //! builds ROWS UNBOUNDED PRECEDING..CURRENT ROW (it passes "has an ORDER BY" where WindowFrame::new expects "ordering is
 //! strict"), while SQL text without a frame means RANGE: peers (rows with equal keys) get different running aggregates.
 //! Robustness note: `DataFrame::window` with a non-window expression (a CAST around row_number()) panics in the physical planner
@@ -857,10 +860,10 @@ fn failure_signature(case: &Case, r: &CaseResult) -> Option<String> {
     if !m.starts_with("DataFrame rows differ") {
         return None;
     }
-    if let Some(at) = case.ops.iter().position(|o| matches!(o, Op::SortLimit { skip, fetch: None, .. } if *skip > 0)) {
-        if case.ops[at + 1..].iter().any(|o| matches!(o, Op::Sort { .. } | Op::SortLimit { .. } | Op::DistinctOn { .. })) {
-            return Some("offset-only-limit-under-sort".to_string());
-        }
+    // a skip-only limit (OFFSET without LIMIT): EnsureRequirements does not treat it as order-sensitive (it looks at fetch() only)
+    // and pushes a later sort below it or drops the sort feeding it, differently for differently shaped plans
+    if case.ops.iter().any(|o| matches!(o, Op::SortLimit { skip, fetch: None, .. } if *skip > 0)) {
+        return Some("offset-only-limit-under-sort".to_string());
     }
     // an ordered aggregate window function without an explicit frame: the expression builder defaults to ROWS, SQL to RANGE
     let default_frame = |e: &Expr| matches!(e, Expr::Win(w) if matches!(w.f, WinFunc::Agg(_)) && !w.order_by.is_empty() && w.frame.is_none());
@@ -871,6 +874,34 @@ fn evaluate_uncached(case: &Case) -> CaseResult {
     {
         if case.tables.len() != 2 || case.tables[0].name != "t0" || case.tables[1].name != "t1" || case.ops.len() > 40 {
             return CaseResult::discard("malformed case");
+        }
+        // foreign known finding C01 `filter-below-empty-grouping-set`: a column-free filter above a global aggregate is pushed below it
+        // (the grand-total row survives); the two plan shapes are hit differently — not a DataFrame matter
+        if let Some(at) = case.ops.iter().position(|o| matches!(o, Op::Aggregate { group, .. } if group.is_empty())) {
+            fn column_free_conjunct(e: &Expr) -> bool {
+                if let Expr::Bin(refsql::BinOp::And, l, r) = e {
+                    return column_free_conjunct(l) || column_free_conjunct(r);
+                }
+                let mut cols = false;
+                exprgen::walk(e, &mut |x| cols |= matches!(x, Expr::Col { .. }));
+                !cols
+            }
+            if case.ops[at + 1..].iter().any(|o| match o {
+                Op::Filter { pred } => column_free_conjunct(pred),
+                Op::SetOp { other, .. } => other.filter.as_ref().is_some_and(column_free_conjunct),
+                Op::Join { filter, .. } => filter.as_ref().is_some_and(column_free_conjunct),
+                Op::JoinOn { on, .. } => on.iter().any(column_free_conjunct),
+                _ => false,
+            }) {
+                return CaseResult::discard("foreign known finding shape: C01 filter-below-empty-grouping-set");
+            }
+        }
+        // foreign known finding C01 `join-mixed-null-equality`: a null-equal key (IS NOT DISTINCT FROM) in one join and a plain equality
+        // in another join of the same tree: the flattened joins share one null-equality setting
+        let joins = case.ops.iter().filter(|o| matches!(o, Op::Join { .. } | Op::JoinOn { .. })).count();
+        let null_equal = case.ops.iter().any(|o| matches!(o, Op::JoinOn { on, .. } if on.iter().any(|e| matches!(e, Expr::IsDistinctFrom { negated: true, .. }))));
+        if joins >= 2 && null_equal {
+            return CaseResult::discard("foreign known finding shape: C01 join-mixed-null-equality");
         }
         let (sql, schema) = match render_sql(case) {
             Ok(x) => x,
